@@ -36,7 +36,7 @@ def plan(tier, seed):
     floor = {_lab(l): 1 for l in REQUIRED_LABELS}
     if tier == 'quick':
         floor.update({'distinct_nontrivial': 1500, 'commits': 5000})
-        return {'n': 14000, 'deadline': 50, 'floor': floor}
+        return {'n': 14000, 'deadline': 150, 'floor': floor}
     floor.update({'distinct_nontrivial': 40000, 'commits': 100000})
     return {'n': 400000, 'deadline': 560, 'floor': floor}
 
